@@ -52,6 +52,7 @@ def ff_getters(repo, res, ty, rule="FF"):
                 p = ps[idx]
                 while p[0] == "mcall" and p[1] in ("unwrap_or",):
                     p = p[2]
+                p = P.peel(p) if p[0] == "try" else p
                 good = good and p[0] == "bind" and P.last(p[1]) == variant and p[2] == fname and "get_input" in A.show(p[3])
             t = ps[to_idx]
             good = good and t[0] == "proj" and t[2] == 1 and t[1][0] == "elem"
